@@ -199,6 +199,65 @@ def r4_r5(ctx):
            "server dispatch literal %r vs client magic %r (client dials it: %s): UDP streams are not recognised by the server" % (lit, magic_val, dialled))
 
 
+def _loop_header(cfg, bb):
+    """the header of the outermost loop through block bb: the block of that cycle set which dominates all the others"""
+    cyc = cfg.cycle_blocks(bb)
+    for h in sorted(cyc):
+        if all(cfg.dominates(h, b) for b in cyc):
+            return h, cyc
+    return None, cyc
+
+
+def r8_every_turn_consumes(ctx):
+    """each turn of a relay loop takes one item off its source before it does anything else that can send it round again:
+    a turn that goes back to the top without having consumed (a peek and `continue`, a filter ahead of the receive) meets the same
+    item next time — the loop spins on it and every datagram queued behind it is never relayed"""
+    for path, src_pat in (("client::udp_client::stream_to_udp", "::read_udp_packet"), ("server::udp_proxy::stream_to_udp", "::read_udp_packet"),
+                          ("client::udp_client::udp_to_stream", "UdpSocket::recv_from"), ("server::udp_proxy::udp_to_stream", "UdpSocket::recv_from")):
+        body = co(ctx, "R15.8", path)
+        if body is None:
+            continue
+        cfg = ctx.cfg(body)
+        src = calls_norm(body, src_pat)
+        name = path.split("::")[-1] + "@" + path.split("::")[1]
+        if not ctx.floor("R15.8", "%s: source call" % name, len(src), 1):
+            continue
+        h, cyc = _loop_header(cfg, src[0].bb)
+        if h is None:
+            ctx.missing("R15.8", "%s: loop around the source call" % name)
+            continue
+        ok, p = (True, None) if h == src[0].bb else cfg.must_pass([b for b in cfg.succ(h) if b in cyc], [h], via_blocks=[c.bb for c in src])
+        ctx.ob("R15.8", "%s:every-turn-consumes-from-the-source" % name, ok, src[0].site, "no way round the loop avoids `%s`" % src_pat.strip(":") if ok else
+               "the loop can go round without calling `%s` (a `continue` ahead of it): the item that caused it is still at the head of the queue, the task spins on it and nothing behind it is relayed any more" % src_pat.strip(":"),
+               path=None if ok else render_path(body, p)[:14])
+
+
+def r7_reply_peer_has_one_writer(ctx):
+    """the remembered local peer is written only by the direction that learns it (udp_to_stream, from each datagram's sender):
+    the reply direction reads it.  A reply path that consumes or resets it loses every further datagram the target sends before
+    the application speaks again (multi-part answers, retransmits)."""
+    writers = []
+    n = 0
+    for key, body in ctx.P.scan():
+        if not key.startswith("client::udp_client::"):
+            continue
+        o = ctx.origins(body)
+
+        def is_peer_guard(t):
+            return any(is_call_term(s_, "Mutex::<T>::lock", "Mutex::lock", "Mutex::<T>::try_lock", "Mutex::<T>::blocking_lock") and "last_peer" in fmt(s_) for s_ in subterms(t)) or \
+                (isinstance(t, tuple) and t and t[0] == "var" and len(t) > 2 and body.lty(t[2]).get("adt") == "tokio::sync::MutexGuard" and "SocketAddr" in body.lty(t[2])["args"][0]["s"])
+        for c in body.calls():
+            if (c.norm or "").endswith("::deref_mut") and c.args and is_peer_guard(o.of_operand(c.args[0])):
+                n += 1
+                writers.append((ctx.P.owner(key), c.site))
+            elif (c.norm or "").endswith(("Mutex::lock", "Mutex::<T>::lock")) and "last_peer" in fmt(o.of_operand(c.args[0])):
+                n += 1
+    ctx.floor("R15.7", "lock / write sites of the remembered peer in client::udp_client", n, 2)
+    bad = [w for w in writers if "udp_to_stream" not in w[0]]
+    ctx.ob("R15.7", "last_peer:written-only-by-udp_to_stream", not bad, bad[0][1] if bad else "", "only udp_to_stream takes the remembered peer mutably" if not bad else
+           "%s takes the remembered peer mutably (take/replace/assignment): after one reply the address is gone until the application sends again, and further datagrams from the target are dropped" % bad[0][0].split("::")[-1])
+
+
 def run(ctx):
     from . import effects
     effects.check_property(ctx, "C15")    # R15.E: no operation on shared protocol state outside the reviewed table
@@ -210,4 +269,6 @@ def run(ctx):
     r1_prefix_agreement(ctx)
     r3_one_to_one(ctx)
     r6_reply_peer(ctx)
+    r7_reply_peer_has_one_writer(ctx)
+    r8_every_turn_consumes(ctx)
     r4_r5(ctx)
